@@ -48,6 +48,7 @@ def generate(rng, opts):
     nslots = 1
     nops = r.randint(3, opts.get("lazy_max_ops", 12))
     p_fault = r.choice([0.0, 0.0, 0.1, 0.25])
+    p_alloc = r.choice([0.0, 0.0, 0.05, 0.15])
     p_evict = r.choice([0.0, 0.1, 0.3]) if policy in ("keep", "evict_random") else 0.0
     p_meta = r.choice([0.1, 0.3])
     for _ in range(nops):
@@ -68,6 +69,9 @@ def generate(rng, opts):
             if declare_form:
                 kinds.append("wrong_form")
             ev["fault"] = {"key": r.choice(keys), "kind": r.choice(kinds), "calls": r.choice([1, 1, 2])}
+        elif r.random() < p_alloc:
+            # the k-th C++ allocation inside the lazy operation (materialisation, cache hand-over included) fails
+            ev["alloc_fail"] = r.choice([0, 0, 1, 2, 3, 5, 8, 13, 21])
         events.append(ev)
         nslots += 1
     return {"mode": "virtual", "truth": truth, "lazy": lazy, "cache": cache, "events": events,
@@ -250,7 +254,18 @@ def execute(node, case, rec, opts):
         tmp = []
         eo = outcome(node, lambda: O.apply(node, op, em, mat, tmp))
         node.seam_log()
-        lo_ = outcome(node, lambda: O.apply(node, op, lslots[i], lambda s: lslots[s], tmp))
+        k_fail = ev.get("alloc_fail") if not fault and node.alloc_supported() else None
+        alloc_fired = [False]
+
+        def lazy_apply():
+            if k_fail is None:
+                return O.apply(node, op, lslots[i], lambda s: lslots[s], tmp)
+            node.alloc_arm(k_fail)
+            try:
+                return O.apply(node, op, lslots[i], lambda s: lslots[s], tmp)
+            finally:
+                alloc_fired[0] = node.alloc_disarm()[0]
+        lo_ = outcome(node, lazy_apply)
         log = node.seam_log()
         consumed = [ln.split()[1] for ln in log if ln.startswith("gen ") and ln.split()[2] in ("throw", "short", "wrong_form")]
         if fault and fault["key"] in rz.gens:
@@ -282,7 +297,25 @@ def execute(node, case, rec, opts):
             rec.probe("eager_operation_returned_a_scalar")
             lslots.append(None); eslots.append(None)
             continue
-        if consumed:
+        if alloc_fired[0]:
+            # an allocation failed somewhere inside the lazy operation: it may raise or (if nothing depended on the
+            # allocation) return the right value; nothing partial may stay behind - the same call again must give the
+            # materialised array's answer
+            rec.fault("allocation_failure")
+            if lo_[0] == "value" and not same_outcome(eo, lo_):
+                raise Violation("enforcement", "allocation_failure_gave_another_result",
+                                {"event": ev, "eager": show(eo), "lazy": show(lo_), "seam_log": log[-30:]}, at=t)
+            l2 = outcome(node, lambda: O.apply(node, op, lslots[i], lambda s: lslots[s], tmp))
+            log2 = node.seam_log()
+            if not same_outcome(eo, l2):
+                from .pool import operand_facts
+                raise Violation("recovery", "no_recovery_after_faults_stopped",
+                                {"event": ev, "fault": {"kind": "allocation_failure", "k": k_fail}, "eager": show(eo),
+                                 "lazy_retry": show(l2), "seam_log": log + ["--- retry ---"] + log2,
+                                 "facts": operand_facts(node, em, op)}, at=t)
+            rec.probe("recovered_after_allocation_failure")
+            lo_ = l2
+        elif consumed:
             rec.fault("gen_" + fault["kind"])
             # enforcement: the faulty generation must surface as an error ...
             if lo_[0] == "value":
@@ -644,7 +677,7 @@ RULE = ("one run = a valid truth layout + either (a) the same layout with 1-3 no
         "lazy structure and to the eager twin, with evictions between operations and generator faults placed inside "
         "operations, each followed by a recovery attempt. distinct = hash of (topology classes, cache policy, declared "
         "form/length, op-class and fault sequence); non-trivial = at least 3 events")
-REQUIRED_PROBES = {"quick": ["operations_compared", "metadata_compared", "final_reads_compared", "partition_at_compared",
+REQUIRED_PROBES = {"quick": ["recovered_after_allocation_failure", "operations_compared", "metadata_compared", "final_reads_compared", "partition_at_compared",
                              "partition_range_compared", "repartitions_compared", "recovery_attempts"],
                    "thorough": ["operations_compared", "metadata_compared", "final_reads_compared", "partition_at_compared",
                                 "partition_range_compared", "repartitions_compared", "recovery_attempts"]}
